@@ -368,7 +368,8 @@ Definition masked_copy (fl : flags) (o : obj) (vm cm : option (list bool)) : out
             match (match cm with Some c => Some c | None => cells_kept m (cells o) end) with
             | None => Failed IndexError o
             | Some c =>
-                if negb (Nat.eqb (length c) (length (cells o))) then Failed IndexError o
+                if negb (Nat.eqb (length c) (length (cells o))) && negb (match c with [] => true | _ => false end)
+                then Failed IndexError o   (* numpy: a boolean index of the wrong length raises, except a zero-length one, which selects nothing *)
                 else
                   let cs' := select c (map (map (new_id m)) (cells o)) in
                   match copy_kids fl (length vs') (length cs') (Some m) (Some c) (kids o) with
@@ -381,7 +382,8 @@ Definition masked_copy (fl : flags) (o : obj) (vm cm : option (list bool)) : out
           | None => match copy_kids fl (length (verts o)) (length (cells o)) None None (kids o) with
                     | Ok ks => Done (set_kids o ks) | Err e => Failed e o end
           | Some c =>
-              if negb (Nat.eqb (length c) (length (cells o))) then Failed IndexError o
+              if negb (Nat.eqb (length c) (length (cells o))) && negb (match c with [] => true | _ => false end)
+                then Failed IndexError o   (* numpy: a boolean index of the wrong length raises, except a zero-length one, which selects nothing *)
               else
                 let cs' := select c (cells o) in
                 match copy_kids fl (length (verts o)) (length cs') None (Some c) (kids o) with
